@@ -50,6 +50,9 @@ CLAIMED = {
  'C14': dict(level='fault_enumeration', technique="bounded symbolic execution (z3) with a symbolic fault index over the library's own mutating system calls; rollback assertions or comparison with a reference in which the API call in progress fails without effect",
              text='One OSError(EIO) is injected at the j-th mkdir / makedirs / rename / replace / cache open-for-write of a build, j symbolic; if it leaves build the pre-state (bytes, mtime, cache file, no new files/dirs, no temp dir) must be back, if user code catches it the value and final tree must equal the reference where that call failed in setup, and the following fault-free build must again equal the from-scratch reference.',
              note='Trusted: environment model and its call hook points, reference model, z3; faults during commit/rollback are outside the property.'),
+ 'C09': dict(level='model_checking', technique='bounded exploration of thread schedules: the scheduling choice at every library system call and lock acquire is a solver-chosen hole (pre-emption bounded), tree states symbolic; result compared with the sequential reference, then rebuild and clean',
+             text='2-3 worker threads call build_file / subbuild on one builder under a baton scheduler whose choices are engine holes; every schedule up to the pre-emption bound is explored, for each: no deadlock, no spurious exception, values and tree equal the sequential reference, the unchanged rebuild re-executes nothing that succeeded and clean removes everything the build created.',
+             note='Trusted: scheduler (switches only at environment calls and lock operations), environment model, reference model, z3.'),
 }
 NA_REASON = 'check not built yet in this round (work in progress; see DESIGN.md section 12)'
 
